@@ -312,6 +312,7 @@ def run_case(case, env):
     comps = case["components"]
     fps = []
     has_cycle = any(c["cyclic"] for c in comps.values())
+    hangs = 0
     for k, sc in enumerate(case["schedules"]):
         idxs = sc["subset"] if sc.get("subset") else sc["perm"]
         if sc.get("subset"):
@@ -339,6 +340,9 @@ def run_case(case, env):
         if res.bound:
             viol.append(V("termination", "c18:no-progress", "%s: no exit within the step bound (%s); last calls:\n%s"
                           % (desc, res.bound, "\n".join(c.line for c in res.calls[-5:])), schedule=k))
+            hangs += 1
+            if hangs >= 2:
+                break       # every further schedule of this project would wait for the bound again
             continue
         if res.signal is not None:
             viol.append(V("termination", "c18:abnormal-end", "%s: process died with signal %d\n%s" % (desc, res.signal, res.stderr[-400:]), schedule=k))
